@@ -38,6 +38,91 @@ int main(void) {
 }
 '''
 
+# Digest handling of truncated keys, observed on the CURRENT qhasharr.c: the source file is compiled into a
+# tiny program with memcmp / memcpy replaced by recording macros (function name, argument text, byte count
+# as the compiler evaluates it - `sizeof` of an array, of a pointer, a literal, ...), the three library
+# functions it calls stubbed; two 20-byte keys with a common 16-byte prefix are stored and read back.
+#   digestCmpBytes    byte counts of the memcmp calls of get_idx() that mention an md5 operand
+#   digestCopyBytes   byte counts of the memcpy calls of put_data() that mention an md5 operand
+#   longNameCmpBytes  byte counts of the memcmp calls of get_idx() on pair.name for a key longer than the inline name
+DIGEST_PROG = r'''
+#include <stdio.h>
+#include <stdlib.h>
+#include <string.h>
+#include <stdbool.h>
+#include <stdint.h>
+static int verif_rec_cmp(const char *fn, const char *args, size_t n, const void *a, const void *b) {
+    printf("cmp %s %zu %s\n", fn, n, args); return (memcmp)(a, b, n);
+}
+static void *verif_rec_cpy(const char *fn, const char *args, size_t n, void *d, const void *s) {
+    printf("cpy %s %zu %s\n", fn, n, args); return (memcpy)(d, s, n);
+}
+#define memcmp(a, b, n) verif_rec_cmp(__func__, #a "|" #b, (size_t) (n), (a), (b))
+#define memcpy(d, s, n) verif_rec_cpy(__func__, #d "|" #s, (size_t) (n), (d), (s))
+#include "SRC"
+#undef memcmp
+#undef memcpy
+int main(void) {
+    static char mem[8192];
+    qhasharr_t *t = qhasharr(mem, sizeof mem);
+    if (!t) return 3;
+    const char *k1 = "AAAAAAAAAAAAAAAAbbb1", *k2 = "AAAAAAAAAAAAAAAAbbb2";
+    if (!qhasharr_put_by_obj(t, k1, 20, "x", 1) || !qhasharr_put_by_obj(t, k2, 20, "y", 1)) return 4;
+    size_t sz; void *d;
+    puts("phase get");
+    d = qhasharr_get_by_obj(t, k1, 20, &sz); if (!d) return 5; free(d);
+    d = qhasharr_get_by_obj(t, k2, 20, &sz); if (!d) return 6; free(d);
+    return 0;
+}
+'''
+
+
+# the three library functions qhasharr.c calls, in a translation unit of their own (linked by name)
+DIGEST_STUBS = r'''
+#include <stddef.h>
+#include <stdint.h>
+#include <stdbool.h>
+uint32_t qhashmurmur3_32(const void *data, size_t nbytes) { (void) data; (void) nbytes; return 7; }
+bool qhashmd5(const void *data, size_t nbytes, void *retbuf) {
+    for (int i = 0; i < 16; i++) ((unsigned char *) retbuf)[i] = (unsigned char) (((const unsigned char *) data)[nbytes - 1] + i);
+    return true;
+}
+void _q_textout(void *fp, void *data, size_t size, size_t max) { (void) fp; (void) data; (void) size; (void) max; }
+'''
+
+
+def digest_facts(repo):
+    src = os.path.join(repo, "src/containers/qhasharr.c")
+    with tempfile.TemporaryDirectory(prefix="harr_digest_") as d:
+        c, exe = os.path.join(d, "d.c"), os.path.join(d, "d")
+        open(c, "w").write(DIGEST_PROG.replace("SRC", src))
+        st = os.path.join(d, "stubs.c")
+        open(st, "w").write(DIGEST_STUBS)
+        r = subprocess.run(["gcc", "-std=gnu99", "-O0", "-w", "-I", os.path.join(repo, "include/qlibc"), "-I", os.path.join(repo, "include"),
+                            "-I", os.path.join(repo, "src/internal"), c, st, "-o", exe], capture_output=True, text=True)
+        if r.returncode != 0:
+            raise SystemExit("translator/harr_layout.py: digest program does not compile:\n" + r.stderr[:2000])
+        p = subprocess.run([exe], capture_output=True, text=True, timeout=20)
+        if p.returncode != 0:
+            raise SystemExit("translator/harr_layout.py: digest program failed (exit %d)" % p.returncode)
+    cmp_, cpy, name, getphase = set(), set(), set(), False
+    for line in p.stdout.splitlines():
+        if line == "phase get":
+            getphase = True
+            continue
+        kind, fn, n, args = line.split(" ", 3)
+        md5 = "md5" in args.lower()
+        if kind == "cmp" and fn == "get_idx" and md5:
+            cmp_.add(int(n))
+        if kind == "cmp" and fn == "get_idx" and not md5 and getphase and "name" in args:
+            name.add(int(n))
+        if kind == "cpy" and fn == "put_data" and md5:
+            cpy.add(int(n))
+    return {"digestCmpBytes": sorted(cmp_), "digestCopyBytes": sorted(cpy), "longNameCmpBytes": sorted(name)}
+
+
+LISTS = ["digestCmpBytes", "digestCopyBytes", "longNameCmpBytes"]
+
 ORDER = ["nameSize", "dataSize", "extSize", "sizeofHandle", "sizeofHeader", "sizeofSlot", "sizeofPair", "sizeofUnion",
          "offMaxslots", "offUsedslots", "offNum", "sizeofMaxslots",
          "offCount", "sizeofCount", "offHash", "sizeofHash", "offDatasize", "sizeofDatasize", "offLink", "sizeofLink",
@@ -45,7 +130,19 @@ ORDER = ["nameSize", "dataSize", "extSize", "sizeofHandle", "sizeofHeader", "siz
          "offExtData"]
 
 
+_memo = {}
+
+
 def extract(repo):
+    """memoised per process on the modification times of the two source files"""
+    key = (repo,) + tuple(os.stat(os.path.join(repo, f)).st_mtime_ns for f in
+                          ("include/qlibc/containers/qhasharr.h", "src/containers/qhasharr.c"))
+    if key not in _memo:
+        _memo[key] = extract_now(repo)
+    return dict(_memo[key])
+
+
+def extract_now(repo):
     with tempfile.TemporaryDirectory(prefix="harr_layout_") as d:
         src, exe = os.path.join(d, "l.c"), os.path.join(d, "l")
         open(src, "w").write(PROG)
@@ -61,6 +158,7 @@ def extract(repo):
     missing = [k for k in ORDER if k not in vals]
     if missing:
         raise SystemExit("translator/harr_layout.py: missing " + ",".join(missing))
+    vals.update(digest_facts(repo))
     return vals
 
 
@@ -70,6 +168,11 @@ def render(vals):
              "namespace Qlibc.Generated.HarrLayout", ""]
     for k in ORDER:
         lines.append("def %s : Nat := %d" % (k, vals[k]))
+    lines += ["", "/- digest handling of truncated keys as the CURRENT qhasharr.c performs it (byte counts of the memcmp calls of",
+              "   get_idx() and of the memcpy calls of put_data() that mention an md5 operand, and of the name comparison of a",
+              "   key longer than the inline name; recorded by running the source with recording memcmp / memcpy macros) -/"]
+    for k in LISTS:
+        lines.append("def %s : List Nat := [%s]" % (k, ", ".join(str(x) for x in vals[k])))
     lines += ["", "end Qlibc.Generated.HarrLayout"]
     return "\n".join(lines) + "\n"
 
